@@ -32,18 +32,18 @@ type wa struct{ a ra.LongAdder }
 func NewLongAdder(t Type) LongAdder { return &wa{a: ra.NewLongAdder(t)} }
 func DefaultAdder() LongAdder       { return &wa{a: ra.DefaultAdder()} }
 
-func (w *wa) Add(x int64) { vsched.Step(); vsched.Atomic(func() { w.a.Add(x) }) }
-func (w *wa) Inc()        { vsched.Step(); vsched.Atomic(func() { w.a.Inc() }) }
-func (w *wa) Dec()        { vsched.Step(); vsched.Atomic(func() { w.a.Dec() }) }
+func (w *wa) Add(x int64) { vsched.StepK(111); vsched.Atomic(func() { w.a.Add(x) }) }
+func (w *wa) Inc()        { vsched.StepK(112); vsched.Atomic(func() { w.a.Inc() }) }
+func (w *wa) Dec()        { vsched.StepK(113); vsched.Atomic(func() { w.a.Dec() }) }
 func (w *wa) Sum() (r int64) {
-	vsched.Step()
+	vsched.StepK(114)
 	vsched.Atomic(func() { r = w.a.Sum() })
 	return
 }
-func (w *wa) Reset() { vsched.Step(); vsched.Atomic(func() { w.a.Reset() }) }
+func (w *wa) Reset() { vsched.StepK(115); vsched.Atomic(func() { w.a.Reset() }) }
 func (w *wa) SumAndReset() (r int64) {
-	vsched.Step()
+	vsched.StepK(116)
 	vsched.Atomic(func() { r = w.a.SumAndReset() })
 	return
 }
-func (w *wa) Store(v int64) { vsched.Step(); vsched.Atomic(func() { w.a.Store(v) }) }
+func (w *wa) Store(v int64) { vsched.StepK(117); vsched.Atomic(func() { w.a.Store(v) }) }
